@@ -91,8 +91,8 @@ seeded changes and which check catches which in §11.
     relational statements that compare runs on *different* inputs through more than the paragraph structure.
   C09's and C08's relational clauses, by contrast, are theorems over `wrap`'s functional postcondition (U11, §2.9), and C18's two
   corollaries are theorems over `dedent`'s (and `indent`'s) postconditions (U9, §2.9).
-* **Robustness of the machinery** (§8, §11): 185 seeded property-breaking changes that compile and pass the upstream suite
-  (5 reverted fixes + 180 from independent sub-agents in fifteen waves) are all reported; 25 + 12 behaviour-preserving refactors, 16 small edits and 137 renames of locals
+* **Robustness of the machinery** (§8, §11): 189 seeded property-breaking changes that compile and pass the upstream suite
+  (5 reverted fixes + 184 from independent sub-agents in sixteen waves) are all reported; 25 + 12 behaviour-preserving refactors, 16 small edits and 137 renames of locals
   raise no alarm; every unit verifies under 8 different SMT seeds; the unchanged tree passes all 20 checks in both tiers.
 """)
 w(s1.rstrip()+"\n")
@@ -464,8 +464,8 @@ the property states.
 
 ## 11. Seeded changes and what catches them
 
-`seeded/` holds 185 changes that compile, pass the upstream suite in both feature sets, and break a property: the 5 reverted
-fixes and 180 produced by independent sub-agents given **only** the property text and a scratch worktree:
+`seeded/` holds 189 changes that compile, pass the upstream suite in both feature sets, and break a property: the 5 reverted
+fixes and 184 produced by independent sub-agents given **only** the property text and a scratch worktree:
 
 * waves 1–2 (40): two per property;
 * wave 3 (20): cooperating edits, indirect helpers, wrong fast paths;
@@ -497,14 +497,17 @@ fixes and 180 produced by independent sub-agents given **only** the property tex
   unbreakable word overflows its column — U5's overflow obligation and the bounded totality contracts), C17 (`fill_inplace` folding its scratch
   `line_offset` into `offset`: every wrapped line of an earlier paragraph is counted twice — bounded contract; U10 ends undecided because the loop
   invariant names the removed local) — all reported as the checks stood.
+* wave 16 (4): C02 (two cooperating edits: `break_apart` caches every non-final piece as a full line, `break_words` gives the last piece the remainder — a
+  following word then fits into phantom space behind wide characters; reported as the checks stood, U15's piece-width postcondition and the bounded
+  contracts), C13, C14, C15 — three misses on first contact, see the table below.
 
 (`seeded_prompts/` keeps one example of the prompt of each wave style, and of the two harmless campaigns.)
 
 Each change was confirmed by `tools/seedverify.sh` (patch applies; suite passes in both feature sets; its demonstration fails with
 the patch and passes without). `tools/seedtest.py` applies each to `/repo`, runs the checks of the properties it breaks, and undoes
 it; `seeded/RESULTS.json` is its output and **`seeded/RESULTS.md` the full table** (seed, property, files changed, Verus obligations
-failed, BEC contracts failed, undecided units, verdict). After every change to the checks the whole set is run again (last: 209 of
-209 (change, property) pairs reported; `tools/seedpar.py` does the same on scratch copies, several at a time, without touching `/repo`).
+failed, BEC contracts failed, undecided units, verdict). After every change to the checks the whole set is run again (last: 213 of
+213 (change, property) pairs reported; `tools/seedpar.py` does the same on scratch copies, several at a time, without touching `/repo`).
 
 Misses on first contact (and one relabelled seed) and what was strengthened (never by weakening a check):
 
@@ -527,9 +530,12 @@ Misses on first contact (and one relabelled seed) and what was strengthened (nev
 | 11 | w11_C14_A (tail piece of a split word gets `word.width` minus the head widths — wrong only when a split point lies inside an escape sequence) | every failing input belongs to the input class of known finding KF6 and was suppressed with it | known findings are pinned to the recorded set of failing inputs (§5): a different set is a violation |
 | 11 | w11_C16_A (`matches!(ch, '*'..='/')` makes `,` and `.` prefix characters) | no word of the unfill / refill vocabulary starts with `.` or `,` | `.x` and `,yy` in the vocabulary, `.` and `,` in the unfill alphabet |
 | 12 | w12_C15_A (`impl From<&Options>` rebuilt through the setters, forgetting `line_ending`: `fill(t, &options)` silently uses LF) | U22 proves that conversion copies every option and rejects the change — but U22 was only part of the checks of C02, C04, C08, C09; the bounded contracts pass `Options` by value, which bypasses the conversion | U22 is now part of the check of every property whose entry point takes `Into<Options>` (C01 C05 C13 C15 C16 C20 as well); the C15 / C16 bounded contracts pass `&Options` |
+| 16 | w16_C15_A (`unfill` compares the prefixes of lines three and later with a remembered copy of line two's prefix instead of the running common indent) | needs four lines whose prefixes shrink and then differ past the shrunk indent — at least ten characters, beyond the exhaustive bound of the structural contract and not hit by its random pass; U18 ends undecided (the zip rewrite rule names the zipped expression) | bounded contract `C15.unfill.structural.lines`: every text of up to five (thorough: six) whole LINES drawn from ten lines with changing prefixes |
+| 16 | w16_C13_A (the OSC skipper stops at any backslash, not only at `ESC \\`) | no backslash inside an escape-sequence payload in C13's coloured texts; U3 ends undecided (loop replaced by `find`, lost anchor) | the hyperlink of the coloured-text generator now carries a Windows path (`file://C:\\t`) |
+| 16 | w16_C14_A (first-fit reserves the penalty's width only for fragments followed by whitespace — a hyphenated line may overflow by one column and the second `fill` breaks it again) | C14 had no deductive part and its bounded grid has no hyphen-inserting splitter at a width where the overflow shows; U1's greedy clauses (which reject the change) were tagged C07 / C02 only | U1 is part of C14's check and its greedy clauses carry the C14 tag: the single-call fact idempotence under first-fit rests on (every multi-fragment line fits, penalty included) is a discharged obligation; the property itself stays bounded |
 
 **Verus on its own** (`tools/seedverus.py`, `seeded/VERUS.json`: each change applied to a scratch copy, only the Verus units run):
-a Verus obligation rejects 74 of the 185 changes (1 of the 20 disguised as refactors); the others end *undecided* in Verus (a new construct without a spec, a
+a Verus obligation rejects 76 of the 189 changes (1 of the 20 disguised as refactors); the others end *undecided* in Verus (a new construct without a spec, a
 loop rewritten so that a rewrite rule no longer applies, a lost anchor) or touch code whose contract does not see them
 (`ch_width`'s table — decided by the exhaustive scalar enumeration and Kani K1). Three things raised that share (from 29 to 42 of the first 77 changes):
 (i) specs for the std functions such edits typically reach for (`str::trim_end` / `trim_start` / `trim`, `char::is_ascii`,
